@@ -239,18 +239,18 @@ theorem qpqLoop_fwd : ∀ (fuel : Nat) (q r : QSt α), q.s.WF → qpqLoop A fuel
 def AllHop (s : St α) (ids : List Nat) : Prop := ∀ i ∈ ids, ∀ c ∈ s.cands, c.cid = i → c.st = .hopeful ∨ c.st = .elected
 def AllHopD (s : St α) (ids : List Nat) : Prop := ∀ i ∈ ids, ∀ c ∈ s.cands, c.cid = i → c.st = .hopeful ∨ c.st = .defeated
 
-theorem foldElect_fwd (verb : String) : ∀ (l : List (Cand α)) (s : St α), AllHop s (l.map (·.cid)) →
-    StFwd true (stsig s) (stsig (l.foldl (fun acc c => acc.elect A c.cid verb false) s)) := by
+theorem foldElect_fwd (un : Bool) (verb : String) : ∀ (l : List (Cand α)) (s : St α), AllHop s (l.map (·.cid)) →
+    StFwd un (stsig s) (stsig (l.foldl (fun acc c => acc.elect A c.cid verb false) s)) := by
   intro l
   induction l with
   | nil => intro s _; exact StFwd.refl _ _
   | cons a as ih =>
     intro s hs
     simp only [List.foldl_cons]
-    have h1 : StFwd true (stsig s) (stsig (s.elect A a.cid verb false)) := by
+    have h1 : StFwd un (stsig s) (stsig (s.elect A a.cid verb false)) := by
       unfold St.elect
       rw [stsig_logAct]
-      refine StFwd_upd true s a.cid (fun c => { c with st := .elected, pending := false }) .elected (fun c => ⟨rfl, rfl⟩) ?_
+      refine StFwd_upd un s a.cid (fun c => { c with st := .elected, pending := false }) .elected (fun c => ⟨rfl, rfl⟩) ?_
       intro c hc hci
       rcases hs a.cid (by simp) c hc hci with h | h
       · rw [h]; exact Or.inr (Or.inl ⟨rfl, Or.inl rfl⟩)
@@ -265,18 +265,18 @@ theorem foldElect_fwd (verb : String) : ∀ (l : List (Cand α)) (s : St α), Al
     · rw [if_neg he] at hci ⊢
       exact hs i (List.mem_cons_of_mem _ hi) c hc hci
 
-theorem foldDefeat_fwd (verb : String) : ∀ (l : List (Cand α)) (s : St α), AllHopD s (l.map (·.cid)) →
-    StFwd true (stsig s) (stsig (l.foldl (fun acc c => acc.defeat A c.cid verb) s)) := by
+theorem foldDefeat_fwd (un : Bool) (verb : String) : ∀ (l : List (Cand α)) (s : St α), AllHopD s (l.map (·.cid)) →
+    StFwd un (stsig s) (stsig (l.foldl (fun acc c => acc.defeat A c.cid verb) s)) := by
   intro l
   induction l with
   | nil => intro s _; exact StFwd.refl _ _
   | cons a as ih =>
     intro s hs
     simp only [List.foldl_cons]
-    have h1 : StFwd true (stsig s) (stsig (s.defeat A a.cid verb)) := by
+    have h1 : StFwd un (stsig s) (stsig (s.defeat A a.cid verb)) := by
       unfold St.defeat
       rw [stsig_logAct]
-      refine StFwd_upd true s a.cid (fun c => { c with st := .defeated }) .defeated (fun c => ⟨rfl, rfl⟩) ?_
+      refine StFwd_upd un s a.cid (fun c => { c with st := .defeated }) .defeated (fun c => ⟨rfl, rfl⟩) ?_
       intro c hc hci
       rcases hs a.cid (by simp) c hc hci with h | h
       · rw [h]; exact Or.inr (Or.inl ⟨rfl, Or.inr rfl⟩)
@@ -303,17 +303,17 @@ theorem allHopD_hopeful {s : St α} (hwf : s.WF) : AllHopD s (s.hopeful.map (·.
   obtain ⟨ha1, ha2⟩ := mem_hopeful.1 ha
   rw [cand_unique hwf ha1 hc hci]; exact Or.inl ha2
 
-theorem qpqFinish_fwd (q : QSt α) (hwf : q.s.WF) : StFwd true (stsig q.s) (stsig (qpqFinish A q)) := by
+theorem qpqFinish_fwd (un : Bool) (q : QSt α) (hwf : q.s.WF) : StFwd un (stsig q.s) (stsig (qpqFinish A q)) := by
   unfold qpqFinish
   split
   · exact StFwd.refl _ _
   · simp only
-    have h4 : StFwd true (stsig q.s) (stsig (if decide ((q.s.hopeful.length : Int) ≤ q.s.seatsLeft) then
+    have h4 : StFwd un (stsig q.s) (stsig (if decide ((q.s.hopeful.length : Int) ≤ q.s.seatsLeft) then
               q.s.hopeful.foldl (fun acc c => acc.elect A c.cid "Elect remaining candidates" false) q.s else q.s)) := by
       split
-      · exact foldElect_fwd A _ _ _ (allHop_hopeful hwf)
+      · exact foldElect_fwd A un _ _ _ (allHop_hopeful hwf)
       · exact StFwd.refl _ _
-    exact h4.trans (foldDefeat_fwd A _ _ _ (allHopD_hopeful (h4.WF hwf)))
+    exact h4.trans (foldDefeat_fwd A un _ _ _ (allHopD_hopeful (h4.WF hwf)))
 
 theorem qpqStart_stsig (s0 : St α) : stsig (qpqStart A s0).s = stsig s0 := by
   unfold qpqStart
@@ -336,7 +336,7 @@ theorem qpqCount_fwd (s0 t : St α) (hwf : s0.WF) (h : qpqCount A s0 = some t) :
     have hwf1 : (qpqStart A s0).s.WF := WF_of_stsig hs hwf
     have h1 := qpqLoop_fwd A _ _ _ hwf1 hl
     rw [hs] at h1
-    exact h1.trans (qpqFinish_fwd A r (h1.WF hwf))
+    exact h1.trans (qpqFinish_fwd A true r (h1.WF hwf))
 
 /-- what `StFwd` says about one candidate -/
 theorem StFwd.at {un : Bool} {l l' : List (Nat × CState)} (h : StFwd un l l') (i : Nat) (st' : CState) (hm : (i, st') ∈ l') :
@@ -355,5 +355,23 @@ theorem StFwd.at {un : Bool} {l l' : List (Nat × CState)} (h : StFwd un l l') (
         rw [← h2]; exact hp.2
     · obtain ⟨st, hst, hok⟩ := ih hm'
       exact ⟨st, List.mem_cons_of_mem _ hst, hok⟩
+
+/-- ... and read from the other side -/
+theorem StFwd.at_left {un : Bool} {l l' : List (Nat × CState)} (h : StFwd un l l') (i : Nat) (st : CState) (hm : (i, st) ∈ l) :
+    ∃ st', (i, st') ∈ l' ∧ okT un st st' := by
+  unfold StFwd at h
+  induction h with
+  | nil => cases hm
+  | @cons p p' ps ps' hp _ ih =>
+    rcases List.mem_cons.1 hm with e | hm'
+    · refine ⟨p'.2, ?_, ?_⟩
+      · have : p' = (i, p'.2) := by
+          have h1 : p.1 = i := by rw [← e]
+          rw [← h1, ← hp.1]
+        rw [← this]; exact List.mem_cons_self ..
+      · have h2 : p.2 = st := by rw [← e]
+        rw [← h2]; exact hp.2
+    · obtain ⟨st', hst, hok⟩ := ih hm'
+      exact ⟨st', List.mem_cons_of_mem _ hst, hok⟩
 
 end Droop
